@@ -46,7 +46,21 @@ def one_case(rng, res, family):
     root = scen.new_root()
     try:
         hooks, inspect_timeout, params = [], 60, None
-        if family == "c02":
+        if family == "illformed":
+            # two functionaries, one needed: one hands in a validly signed file whose content is not link metadata (the
+            # command as one string), the other a proper link
+            ch = scen.gen_chain(rng, root, n_steps=rng.choice([1, 2]), n_insp=0, thresholds=(1,), max_funcs=1)
+            st_ = rng.choice(ch.steps)
+            a_, b_ = rng.sample([k for k in W.pool() if k not in ch.owners], 2)
+            st_["keys"], st_["pubkeys"], st_["threshold"] = [a_, b_], [a_.keyid, b_.keyid], 1
+            ch.layout_keys[a_.keyid] = a_.pub; ch.layout_keys[b_.keyid] = b_.pub
+            links = [scen.link_spec(a_, rng.choice(["metablock", "dsse"]), st_["name"], st_["materials"], st_["products"], tamper="illformed_signed"),
+                     scen.link_spec(b_, rng.choice(["metablock", "dsse"]), st_["name"], st_["materials"], st_["products"])]
+            rng.shuffle(links)
+            st_["links"] = links
+            st_["pubkeys"] = [l_["k"].keyid for l_ in links] if rng.random() < 0.5 else st_["pubkeys"]
+            desc = {"step": st_["name"], "illformed_link_of": a_.kind, "proper_link_of": b_.kind}
+        elif family == "c02":
             ch, desc = c02.gen_case(rng, root, False)
         elif family == "c05":
             ch, desc = c05.gen_case(rng, root); desc.pop("attested", None)
@@ -88,6 +102,12 @@ def one_case(rng, res, family):
             # cannot be loaded (e.g. a rule whose keyword is a placeholder) is refused at different moments; what must
             # agree is that none of the assignments is accepted
             same = not any(o.get("verdict") == "accept" for o in outs.values())
+        illformed = any(ls.get("tamper") == "illformed_signed" for c_, _p in scen.walk(ch) for s_ in c_.steps for ls in s_["links"])
+        if not same and illformed:
+            # likewise for a validly signed link file whose content is not link metadata: refused when loaded (traditional)
+            # or when first used (envelope) - possibly never, if its signature is not asked for; what must agree is whether
+            # the verification is accepted
+            same = len({o.get("verdict") == "accept" for o in outs.values()}) == 1
         res.case({"desc": desc, "outcomes": {k: {"verdict": v.get("verdict"), "log": v.get("log")} for k, v in outs.items()}},
                  True, agreed_all)
         res.evaluations += 2
@@ -255,6 +275,8 @@ def shard(seed, idx, n, tier):
     rng = core.rng_for(seed, "c14", idx)
     for j in range(n):
         one_case(rng, res, FAMILIES[(idx + j) % len(FAMILIES)])
+    if idx % 4 == 0:
+        one_case(rng, res, "illformed")
     for _ in range(max(1, n // 4)):
         lib_roundtrip(rng, res)
         foreign_link_case(rng, res)
